@@ -44,11 +44,11 @@ PROFILES = {
     "quick": dict(design=[("fwd_k1.cfg", True, 6, 150), ("fwd_t3s.cfg", True, 3, 150), ("fwd_live_q.cfg", True, 3, 150),
                           ("mut_nolatchmsg.cfg", False, 1, 120)],
                   gen="sim_t.cfg", keep=3),
-    "thorough": dict(design=[("fwd_q.cfg", True, 8, 800), ("fwd_t3s.cfg", True, 2, 600), ("fwd_t3n.cfg", True, 4, 800),
-                             ("fwd_live.cfg", True, 2, 800), ("fwd_draft.cfg", True, 4, 800),
+    "thorough": dict(design=[("fwd_q.cfg", True, 8, 840), ("fwd_t3n.cfg", True, 6, 840), ("fwd_t3s.cfg", True, 2, 600),
+                             ("fwd_live.cfg", True, 2, 800), ("fwd_draft.cfg", True, 2, 600),
                              ("mut_nolatchmsg.cfg", False, 1, 300), ("mut_nolatchack_noclosesend.cfg", False, 1, 300),
-                             ("mut_nolatchack.cfg", True, 1, 300), ("mut_noclosesend.cfg", True, 1, 300),
-                             ("mut_nocancel.cfg", True, 1, 300)],
+                             ("mut_nolatchack.cfg", True, 1, 600), ("mut_noclosesend.cfg", True, 1, 600),
+                             ("mut_nocancel.cfg", True, 1, 600), ("mut_noclosesend_nocancel.cfg", True, 1, 600)],
                      gen="sim_t.cfg", keep=1),
 }
 OBS_RE = re.compile(r'<<(\d+), "(\w+)", "([^"]*)", (-?\d+)>>')
@@ -236,11 +236,19 @@ def run(c, a):
         if sc:
             k = "%s/%s/%s" % (klass(sc), "sync" if sc["sync"] else "race", sc["mode"])
             classes[k] = classes.get(k, 0) + 1
-        sent = sum(1 for e in r if e["ev"] == "SrcSent" and not e["unk"]) - sum(1 for e in r if e["ev"] == "SrcSendErr")
-        got = sum(1 for e in r if e["ev"] == "IniGot")
-        asent = sum(1 for e in r if e["ev"] == "IniSent" and not e["unk"]) - sum(1 for e in r if e["ev"] == "IniSendErr")
-        agot = sum(1 for e in r if e["ev"] == "SrcGot")
-        if sent > got or asent > agot:
+        # sent before the first end of the run (not an unknown kind, Send succeeded) and never received: tail loss at an end
+        pre, errs = {"SrcSent": set(), "IniSent": set()}, {"SrcSendErr": set(), "IniSendErr": set()}
+        over = False
+        for e in r:
+            if e["ev"] in ("End", "FaultFired") or (e["ev"] in pre and e["unk"]):
+                over = True
+            elif e["ev"] in pre and not over:
+                pre[e["ev"]].add(e["id"])
+            elif e["ev"] in errs:
+                errs[e["ev"]].add(e["id"])
+        got = {e["id"] for e in r if e["ev"] == "IniGot"}
+        agot = {e["id"] for e in r if e["ev"] == "SrcGot"}
+        if sc and not sc["sync"] and ((pre["SrcSent"] - errs["SrcSendErr"] - got) or (pre["IniSent"] - errs["IniSendErr"] - agot)):
             tail_loss += 1
         for e in r:
             if e["ev"] in ("IniSawEnd", "SrcSawEnd"):
@@ -259,7 +267,7 @@ def run(c, a):
                 "seeded stratified third, thorough all; scripts are distinct by construction and each contains an end or a fault",
     })
     if tail_loss:
-        c.notes.append("observation tail-loss-at-end: in %d runs messages sent together with / after an end were not delivered "
-                       "(by design, not judged)" % tail_loss)
+        c.notes.append("observation tail-loss-at-end: in %d racing runs messages sent right before the first end were not "
+                       "delivered (overtaken by the teardown; by design, not judged)" % tail_loss)
     samples = [{"schedule": by_id.get(runs[0][0]["id"]), "trace": runs[0][:24]}] if runs else []
     return c.finish(samples, traces_validated=len(runs) - len(viol_runs))
